@@ -1,11 +1,23 @@
 package main
 
-// C14: GoLite targets (docs/GOLITE_NOTES.md). Theorems: coq/props/C14_Generated.v.
+// C14: GoLite targets (docs/GOLITE_NOTES.md). Theorems: coq/props/C14_Generated.v (proofs in
+// coq/theories/C14_GenProofs.v; the writer as a program over an explicit world and its relation to the
+// directory semantics: coq/theories/C14_Writer.v). Table: docs/audit/C14.md, section "GoLite".
+//
+// The five os calls of internal/file.WriteFile are EFFECT oracles: the translator threads an abstract
+// `world` through them in Go's evaluation order, so that the ORDER of the file-system steps (create temp in
+// the cache dir, write, close, rename over the key; Close + Remove(temp) after the first failure) is a
+// statement about the generated term. (*os.File).Name is pure; the verif-tag hook calls are dropped.
+//
+// The order of the rows fixes the order of the Section variables, hence of the leading arguments of the
+// generated functions the theorems name: append new rows at the end of their group only after checking.
 func init() {
 	Register("C14", []Target{
+		// the key of a URL
 		{Pkg: "crypto/sha256", Func: "Sum256", Oracle: true},
 		{Pkg: "encoding/hex", Func: "EncodeToString", Oracle: true},
 		{Pkg: ".../verifier/crl", Func: "(*FileCache).fileName"},
+		// the writer
 		{Pkg: "os", Type: "File", Opaque: true},
 		{Pkg: "os", Func: "CreateTemp", Oracle: true, Effect: true},
 		{Pkg: "os", Func: "(*File).Write", Oracle: true, Effect: true},
@@ -15,9 +27,15 @@ func init() {
 		{Pkg: "os", Func: "Remove", Oracle: true, Effect: true},
 		{Pkg: ".../internal/file", Func: "verifHook", Oracle: true, Drop: true},
 		{Pkg: ".../internal/file", Func: "WriteFile"},
+		// the names of temporary files: how the Go standard library (of the pinned toolchain) splits the
+		// pattern of os.CreateTemp. os.CreateTemp itself is a `for {}` loop around a random number: not a target
 		{Pkg: "os", Func: "IsPathSeparator"},
 		{Pkg: "internal/bytealg", Func: "LastIndexByteString"},
 		{Pkg: "os", Func: "prefixAndSuffix"},
+		// Set and Get. os.ReadFile stays a pure oracle (it is the only call Get makes to the file system).
+		// NilIsEmpty on Get: crl.go:104 `content.DeltaCRL != nil` is read as len != 0, which differs from Go
+		// on `"deltaCRL":""`; the C14 theorems concern the part of Get before the decoding and do not depend
+		// on it (the decoding is C15's).
 		{Pkg: "path/filepath", Func: "Join", Oracle: true},
 		{Pkg: "os", Func: "ReadFile", Oracle: true},
 		{Pkg: "encoding/json", Func: "Marshal", Oracle: true},
